@@ -9,6 +9,8 @@
    [old_handlers] the code before the handler repair (handlers run inside the locked section). *)
 From Coq Require Import List Bool Arith.
 From GV Require Import Thread.Proto Thread.Inv Thread.Preserve Thread.Refute Thread.Full Thread.NoDeadlock.
+From GV Require Import Thread.CloseErr Thread.SpecS Thread.SpecSProofs.
+From Coq Require Import ZArith.
 Import ListNotations.
 
 (* One goroutine at a time: at most one goroutine is active (not blocked in a receive, not
@@ -121,6 +123,56 @@ Theorem C09_values_transferred_exactly : forall cf s g s', step cf s (mkAct g LR
     (forall h, h <> g -> h <> r -> pc s' h = pc s h) /\ th s' = th s.
 Proof. exact values_transferred_exactly. Qed.
 Print Assumptions C09_values_transferred_exactly.
+
+(* ---- the state a DEAD coroutine keeps (what a later coroutine.close reports) *)
+
+(* protocol: the error recorded by end (closeErr) is, at the hand-off send, the error status of the very
+   message being delivered — it is recorded after the handler phase, not before *)
+Theorem C09_closeErr_is_delivered : forall cf s h c m, reachable cf s -> pc s h = E7 c m ->
+  closeErr (th s h) = is_err m.
+Proof. exact closeErr_is_delivered. Qed.
+Print Assumptions C09_closeErr_is_delivered.
+
+(* ... it is written only by the thread's own goroutine at E6, and frozen from then on *)
+Theorem C09_closeErr_written_once : forall cf s a s' h, step cf s a = Some s' -> h < n s ->
+  closeErr (th s' h) <> closeErr (th s h) -> h = who a /\ exists c m, pc s h = E6 c m.
+Proof. exact closeErr_written_once. Qed.
+Print Assumptions C09_closeErr_written_once.
+
+Theorem C09_closeErr_frozen : forall cf s a s' h, step cf s a = Some s' -> h < n s ->
+  past_record (pc s h) = true ->
+  past_record (pc s' h) = true /\ closeErr (th s' h) = closeErr (th s h).
+Proof. exact closeErr_frozen. Qed.
+Print Assumptions C09_closeErr_frozen.
+
+(* sequential semantics S (the oracle of the script correspondence): the error delivered when a
+   coroutine dies is the error it keeps; a failing to-be-closed handler's error replaces the body's;
+   close on a dead coroutine reports the kept error and is idempotent; resume of a dead coroutine fails *)
+Theorem C09_S_die_keeps_delivered_error : forall s id e s' e', id < length (cos s) ->
+  die s id e = (s', e') -> cs (get_co s' id) = CDead e'.
+Proof. exact die_keeps_delivered_error. Qed.
+Print Assumptions C09_S_die_keeps_delivered_error.
+
+Theorem C09_S_die_final_error : forall s id e,
+  snd (die s id e) =
+  if has_tbc s && started (get_co s id) && handler_fails s id then Some (handler_err id) else e.
+Proof. exact die_final_error. Qed.
+Print Assumptions C09_S_die_final_error.
+
+Theorem C09_S_close_dead_idempotent : forall s k1 k2 i id e s1,
+  slot_of s i = Some id -> has_handle (get_co s id) = true -> cs (get_co s id) = CDead e ->
+  do_close s k1 i = Going s1 ->
+  slot_of s1 i = Some id /\ has_handle (get_co s1 id) = true /\ cs (get_co s1 id) = CDead e /\
+  exists ev, do_close s1 k2 i = Going (emitev s1 ev) /\
+             tl (tl ev) = tl (tl (hd [] (evs s1))).
+Proof. exact close_dead_idempotent. Qed.
+Print Assumptions C09_S_close_dead_idempotent.
+
+Theorem C09_S_resume_dead_fails : forall s k prot i id e vs,
+  slot_of s i = Some id -> cs (get_co s id) = CDead e ->
+  do_resume s k prot i vs = fail_resume s (mk_how prot (ck (get_co s id)) k) (VMsg 0).
+Proof. exact resume_dead_fails. Qed.
+Print Assumptions C09_S_resume_dead_fails.
 
 (* Non-vacuity / acceptor sanity: a full resume-return cycle is a behaviour of [current] and not of
    [old_order]; the old-order cycle is rejected by [current]. *)
